@@ -1,9 +1,10 @@
-SPECIFICATION MCSpec
+SPECIFICATION MCSpecX
 CONSTANTS
   Recs = {1}
   Obs = {1}
   Vals = {0, 1, 2}
   MaxDepth = 8
+  Extra = {}
   Dev = "none"
 VIEW MCView
 CONSTRAINT Depth
